@@ -343,7 +343,7 @@ class Universe:
                     v = U.value[n]
                     if s.get("norm"):
                         v = norm_term(v)
-                    U.log("read", n=n, v=v)
+                    U.log("read", n=n, v=enc(v))
                     if f:
                         U._trip(f)
                     return v
@@ -490,7 +490,14 @@ class Universe:
 
 
 def _is_term(x):
-    return isinstance(x, dict) and set(x) == {"n", "v", "a"}
+    """A well-formed term, all the way down (anything else - None from a skipped call, a foreign
+    object - is logged as the bad term T(-2, 0, []) so that the monitor sees a wrong value)."""
+    return (isinstance(x, dict) and set(x) == {"n", "v", "a"} and isinstance(x["n"], int) and isinstance(x["v"], int)
+            and isinstance(x["a"], list) and all(_is_term(y) for y in x["a"]))
+
+
+def enc(x):
+    return x if _is_term(x) else T(-2, 0, [])
 
 
 def edge_key_repr(k):
